@@ -12,3 +12,25 @@ META["C11"] = dict(
          "u32 as Nat. With validation on, validator pre-emption is allowed by the property and counted.",
     technique="Lean 4 proof over list model + differential correspondence with the real generator",
 )
+HOOK_COMMITS.append("dba7c8f")
+META["C03"] = dict(
+    text="Kernel-checked theorems C03_visibility / C03_present / C03_unreached_none / C03_entryStages: for every module satisfying CallsEarlier, the stage "
+         "set the (memoised) traversal model computes for a variable contains stage g iff an entry point of stage g statically uses the variable "
+         "(Occurs over all block-carrying statements, call results in expressions, reflexive-transitive closure over helper functions), and the map has no "
+         "entry iff nobody reaches it (NONE / entry-stage fallback). Unbounded call-graph shape and depth, by induction over fuel and the nested statement type. "
+         "The model is tied to /repo by comparing, for every generated shader, each emitted binding's evaluated visibility and PUSH_CONSTANT_STAGES with the model's.",
+    design_ref="DESIGN.md section 5 (C03)",
+    note="Trusts: Lean kernel; IR dumper and syn fact extractor incl. its stage-expression evaluator; CallsEarlier is checked on every dumped module; "
+         "'static access' is read at naga-IR level. quote_shader_stages is covered by evaluating the emitted expression.",
+    technique="Lean 4 proof (memoised DFS = reachability, structural induction over nested statements) + differential correspondence",
+)
+META["C20"] = dict(
+    text="Kernel-checked bounds on the traversal model's own step counters: update_stages invocations <= entries*(1+functions) (C20_stage_fn_visits), statements walked "
+         "<= entries*(maxEntryBody + maxBody*functions) (C20_stage_stmt_visits), for every call graph satisfying CallsEarlier, any depth; Legacy.chain_blowup proves the "
+         "un-memoised traversal makes 2^(n+1)-1 invocations on a chain (the defect that was repaired). cfg-guarded hooks count the same events in the real code and the "
+         "check demands EQUALITY of the three counters with the model on every case, plus the proved bounds and a wall-clock budget on chain/diamond/fan-out/nested "
+         "families up to depth 64 run under a hard timeout. Partial: wall-clock is measured, not proved; the bound on add_types_recursive calls is checked on real counts, its proof is in Props/C20Types when present.",
+    design_ref="DESIGN.md section 5 (C20)",
+    note="Trusts: hook counters count exactly the modelled calls; each step is O(log n) container work; timing thresholds are >= 20x observed and never decide alone.",
+    technique="Lean 4 proof of step-count bounds + hook-counter equality with the real code + timed deterministic families",
+)
